@@ -47,6 +47,7 @@ BadSplit(e) ==
                      (IF ~PreservesPacked(parts, u)
                         THEN (IF TiledPrefix(u, parts, 1, 0) \in 0..(Len(u) - 1)
                                 THEN {"C06.preserves.tail_lost"} ELSE {"C06.preserves"})
+                        ELSE IF Tiles(u, parts, 1, 0, "all") THEN {}
                         ELSE T(~Tiles(u, parts, 1, 0, "size"), "C07.partsize")
                              \cup T(~Tiles(u, parts, 1, 0, "whole"), "C14.cut"))
                 ELSE
